@@ -544,7 +544,77 @@ def gen_cases(ck):
         c = make_case(rng, segs)
         c["_kind"] = "random:big"
         cases.append(c)
+    cases += history_cases(ck)
     return cases
+
+
+def history_cases(ck):
+    """things done with the SAME Cell object before the measured queries: every query once, sectioning, an in-place edit
+    followed by the documented cache refresh.  The results must be those of a freshly built equal cell, i.e. what the
+    model (a pure function of the segments) and the definition give for the state read back from the object."""
+    rng = ck.rng
+    out = []
+    for t in range(ck.n(3, 8)):
+        n = rng.randrange(6, 13)
+        segs = gen_tree(rng, n, shape=rng.choice(["uniform", "binary", "bushy", "deep"]),
+                        idstyle=rng.choice(["perm", "sparse", "rootnz", "topo"]), prox_prob=rng.choice([0.0, 0.4]), doc="shuffle")
+        ref = reference(segs)
+        sids = [x[0] for x in segs]
+        root = ref["root"]
+        inner = [i for i in sids if i != root and i in ref["kids"]] or [root]
+        hs = [([["all_queries"]], False), ([["query", "get_graph"]], True),
+              ([["query", "get_extremeties"], ["query", "get_distance"]], True),
+              ([["query", "get_segments_at_distance"], ["query", "get_ordered_segments_in_groups"]], False),
+              ([["section", root, True, False]], bool(t % 2)),
+              ([["section", rng.choice(inner), False, False], ["all_queries"]], False),
+              ([["all_queries"], ["section", root, True, False]], True)]
+        for h, gf in hs:
+            c = make_case(rng, [list(x) for x in segs], extra_bad=False)
+            c["history"], c["graph_first"] = h, gf
+            c["_kind"] = "history:" + "+".join(st[0] if st[0] != "query" else st[1] for st in h)
+            c["_expect_segs"] = None if any(st[0] == "section" for st in h) else c["_segs"]
+            out.append(c)
+        # an in-place edit: a leaf is removed again, caches refreshed the documented way
+        par = rng.choice(segs)
+        extra = max(sids) + 3
+        leaf = [extra, par[0], F(1), None, tuple(par[4][k] + (1 if k == 0 else 0) for k in range(3)) + (F(1),)]
+        c = make_case(rng, [list(x) for x in segs], extra_bad=False)
+        base = c["_segs"]
+        pl = case_payload(base + [leaf], [], None, [], [], [])
+        c["segs"] = pl["segs"]
+        c["history"], c["graph_first"] = [["all_queries"], ["remove_segment", extra]], True
+        c["_kind"] = "history:edit-in-place"
+        c["_expect_segs"] = base
+        out.append(c)
+    return out
+
+
+def rows_from_snapshot(rows):
+    out = []
+    for i, par, fr, prox, dist in rows:
+        out.append([i, par, None if fr is None else fq(fr), None if prox is None else tuple(fq(x) for x in prox),
+                    tuple(fq(x) for x in dist)])
+    return out
+
+
+def derive_history_case(ck, case, out):
+    """the measured queries saw the state read back from the object: that is the model's / the definition's input"""
+    snap = rows_from_snapshot(out["snapshot"])
+    if case.get("_expect_segs") is not None and jq(snap) != jq([list(x) for x in case["_expect_segs"]]):
+        ck.witness("C13:history:cell-altered", "the history %s changed the cell's segments" % json.dumps(case["history"]),
+                   input=strip(case), expected=jq(case["_expect_segs"]), observed=jq(snap))
+    case["_segs"] = snap
+    case["_ref"] = reference(snap)
+    # what the methods left cached on the object must be the adjacency list of the cell as it is now
+    cached = out.get("adj_cached")
+    if cached is not None:
+        want = sorted([[k, v] for k, v in case["_ref"]["kids"].items()])
+        if sorted(cached) != want:
+            ck.witness("C13:history:cached-adjacency-list-differs-from-definition",
+                       "cell.adjacency_list left by %s is not the parent-to-children adjacency list (children in document "
+                       "order, no entry for a segment without children)" % json.dumps(case["history"]),
+                       input=strip(case), expected=want, observed=sorted(cached))
+    return case
 
 
 def recursion_witness(ck):
@@ -571,6 +641,22 @@ def recursion_witness(ck):
         if last["ok"] != exp:
             ck.witness("C13:actual_proximal", "wrong effective proximal on a long chain", input={"chain_length": n},
                        expected=exp, observed=last)
+    # the same chain attached at fraction 1: no recursion is needed (the parent's distal point), so this must work
+    segs1 = [[s[0], s[1], None if s[2] is None else F(1), s[3], s[4]] for s in segs]
+    payload = {"cases": [{"segs": case_payload(segs1, [], None, [], [], [])["segs"], "groups": [], "group": None,
+                          "pairs": [], "srcs": [], "ats": [], "only_aprox": [n - 1, n // 2]}]}
+    out = ck.impl("c13_impl.py", payload, timeout=600)["results"][0]
+    ck.count(1, nontrivial_key="fraction-1-chain-1500")
+    ck.tally("stored:long-chain-fraction-1")
+    for (i, v) in out["aprox"]:
+        exp = {"ok": [[0, 1], [i - 1, 1], [0, 1], [1, 1]]}
+        if v != exp:
+            ck.witness("C13:actual_proximal:long-chain-fraction-1",
+                       "get_actual_proximal on segment %d of a chain of %d proximal-less segments attached at fraction_along 1 "
+                       "(the parent's distal point; no recursion needed)" % (i, n),
+                       input={"chain_length": n, "fraction_along": 1, "proximal": "only on the root", "queried_segment": i},
+                       expected=exp, observed=v)
+            break
 
 
 # ------------------------------------------------------------------------------------------ run
@@ -607,6 +693,8 @@ def run(ck):
     t3 = time.time()
     norm = []
     for case, out in zip(cases, results):
+        if case.get("history"):
+            derive_history_case(ck, case, out)
         n = norm_impl(out, case["group"])
         norm.append(n)
         res_impl = out.get("resolved", {})
@@ -643,7 +731,7 @@ def run(ck):
         ck.count(1, nontrivial_key=sig, sample={"kind": case["_kind"], "segments": len(case["_segs"]),
                                                 "root": case["_ref"]["root"], "group": case["group"],
                                                 "first_segments": jq(case["_segs"][:3])})
-        ck.tally(case["_kind"])
+        ck.tally(case["_kind"] if not case.get("history") else "history")
         ck.tally("segments<=6" if len(case["_segs"]) <= 6 else "segments<=30" if len(case["_segs"]) <= 30 else "segments>30")
     t4 = time.time()
     # ---- the kernel diffs model and implementation
@@ -708,7 +796,8 @@ def signature(case):
     px = tuple(by[x][3] is not None for x in order)
     ids_sorted = tuple(sorted(pos)) == tuple(range(len(segs)))
     docorder = tuple(pos[x] for x in order) if len(segs) <= 8 else hash(tuple(pos[x] for x in order)) % 97
-    return json.dumps([shape, fr, px, ref["root"] == 0, ids_sorted, docorder, case["group"]], default=str)
+    return json.dumps([shape, fr, px, ref["root"] == 0, ids_sorted, docorder, case["group"], case.get("history"),
+                       case.get("graph_first")], default=str)
 
 
 def replay(ck, data):
@@ -719,7 +808,12 @@ def replay(ck, data):
     out = ck.impl("c13_impl.py", {"cases": [case]})["results"][0]
     segs = [[s[0], s[1], None if s[2] is None else F(s[2]), None if s[3] is None else tuple(F(x) for x in s[3]),
              tuple(F(x) for x in s[4])] for s in case["segs"]]
+    if case.get("history") and "snapshot" in out:
+        segs = rows_from_snapshot(out["snapshot"])       # the state the measured queries saw
     ref = reference(segs)
+    cached = out.get("adj_cached")
+    if cached is not None and sorted(cached) != sorted([[k, v] for k, v in ref["kids"].items()]):
+        print("cell.adjacency_list left by the history differs from the definition:", sorted(cached))
     print(json.dumps({"input": case, "implementation": out,
                       "definition": jq({k: ref[k] for k in ("root", "aprox", "len", "dist_root", "branch", "tips")}),
                       "stored_expected": data.get("expected"), "stored_observed": data.get("observed")}, indent=1)[:8000])
